@@ -645,6 +645,7 @@ def run(repo, rep, tier):
                         'rebuilt wrongly and does not parse back'
                         % (tname, sep))
     _r8_exact_fields(repo, rep)
+    _r10_seconds_with_days(repo, rep)
 
 
 def _r8_exact_fields(repo, rep, rid='C06.R8'):
@@ -760,3 +761,58 @@ class _Body(ast.AST):
 
     def __init__(self, body):
         self.body = list(body)
+
+
+def _r10_seconds_with_days(repo, rep):
+    """C06.R10: a timedelta is normalised as days (possibly negative) +
+    seconds (0..86399) + microseconds.  Code that takes `.seconds` of a
+    timedelta without also taking `.days` of the same value (or using
+    total_seconds()) is wrong for negative values: a UTC offset of -300
+    minutes has days=-1, seconds=68400 and comes out as +1140 minutes, so
+    the CIMDateTime represents another point in time and its string form
+    gets a 4-digit offset."""
+    r10 = rep.rule('C06.R10', 'timedelta.seconds is only used together with '
+                   '.days of the same value')
+    mod = repo.module(TYP)
+
+    def nonneg_difference(f, node):
+        """node.value is `A - B` evaluated where A >= B is known"""
+        d = node.value
+        if not (isinstance(d, ast.BinOp) and isinstance(d.op, ast.Sub)):
+            return False
+        a, b = norm(d.left), norm(d.right)
+        good = {('%s < %s' % (b, a), True), ('%s <= %s' % (b, a), True),
+                ('%s > %s' % (a, b), True), ('%s >= %s' % (a, b), True),
+                ('%s < %s' % (a, b), False), ('%s > %s' % (b, a), False)}
+        for st, (fs, _t) in stmt_facts(f.node).items():
+            if isinstance(st, (ast.If, ast.For, ast.While, ast.Try,
+                               ast.With)):
+                continue
+            if any(x is node for x in ast.walk(st)):
+                return any((norm(t), pol) in good for t, pol in fs)
+        return False
+    for f in mod.all_funcs():
+        secs = {}
+        days = set()
+        for n in walk_no_nested(f.node):
+            if isinstance(n, ast.Attribute) and isinstance(n.ctx, ast.Load):
+                if n.attr == 'seconds':
+                    secs.setdefault(norm(n.value), n)
+                elif n.attr == 'days':
+                    days.add(norm(n.value))
+        for base, node in secs.items():
+            r10.sites += 1
+            r10.functions.add(f.fq)
+            ok = base in days or nonneg_difference(f, node)
+            r10.ob(ok, '%s|%s.seconds' % (f.qualname, base))
+            if not ok:
+                rep.finding(r10, f.qualname, base + '.seconds',
+                            'seconds-without-days', TYP, node.lineno,
+                            '%s.seconds is used without %s.days: for a '
+                            'negative timedelta (e.g. the utcoffset() of a '
+                            'zone west of UTC) days is -1 and seconds is '
+                            '86400 minus the amount, so the value computed '
+                            'from .seconds alone is off by a day (-300 '
+                            'minutes becomes +1140)' % (base, base))
+    if r10.sites < 2:
+        raise AnalysisError('C06.R10: only %d uses of .seconds' % r10.sites)
